@@ -27,18 +27,21 @@ def weight(w, m):
     return 2.0 if m["cb"] in ("ok", "partial", "query") else 0.5
 
 
-def must(w, m):
+def must(w, m, prim="alice"):
     """the GSS decisions: every MIC / token message in every GSS conversation state, every gssapi-keyex request
     at the start of a connection"""
     if not w["alive"] or w["authenticated"]:
         return False
     if w["mode"] == "gss":
         return m["k"] in ("gss_mic", "gss_token")
-    return (not w["hist"]) and m["k"] == "request" and m["method"] == "gssapi-keyex" and m["user"] == "alice" \
+    return (not w["hist"]) and m["k"] == "request" and m["method"] == "gssapi-keyex" and m["user"] == prim \
         and m["service"] == "ssh-connection"
 
 
 def run(c):
+    if getattr(c, "replay_file", None):
+        import json
+        return A.replay(c, json.load(open(c.replay_file))["replay"], A.C14_CLAUSES)
     rnd = random.Random(c.seed)
     t0, ph = time.time(), {}
     # ---- M: the design with GSS results taken from the callback satisfies C14 (and C16); the design as
@@ -57,7 +60,7 @@ def run(c):
     ph["model_checking"] = round(time.time() - t0, 1)
     other_sid = A.real_other_session_id()
     # ---- RP: spec -> code
-    jobs = A.replay_jobs(rnd, wits, msgs, 60 if c.quick else 5000, weight, must, "rp")
+    jobs = A.replay_jobs(rnd, wits, msgs, 60 if c.quick else 5000, weight, lambda w, m: must(w, m, A.primary(msgs)), "rp")
     # every key type x every signature variant x approving / partially approving application, from the start
     for pk in sorted(A.PK_VARIANTS):
         for sig in (rnd.sample(A.SIG_KINDS, 4) if c.quick else A.SIG_KINDS):
